@@ -38,8 +38,8 @@ def _interp(pid, what, bounded, extra_assume=None, note=None):
 
 _interp("C01", "Theorems C01_*: C01_vector_to_field_rule (rule level, end to end): after `obj.F = jso.path` the field holds the cascade's conversion of the value at the path, nothing else changes and the rule succeeds; the assign cascade, reached through Ctx.set, puts into a destination of each kind exactly `convert` of the source's text / the source integer narrowed as Go narrows; absent sources leave the field alone or zero it. Tied to the code by running assignment-heavy programs over every source kind x destination kind on the real decoder and in the model.",
         "220 programs quick / 2500 thorough per seed")
-_interp("C02", "Theorems C02_*: a field write touches one field of one object and nothing else in the context; writes to different fields commute; evaluation of sources is pure. Literal and getter results are values in the model; that the code does not alias them is what the correspondence (all permutations of independent rules, literal lengths 1..33) checks, with a direct oracle on the real decoder comparing all orderings.",
-        "every permutation of 2-4 independent rules, 260 cases quick / 2600 thorough")
+_interp("C02", "Theorems C02_*: a field write touches one field of one object and nothing else in the context; writes to different fields commute; evaluation of sources is pure; and at program level (C02_independent_rules_any_order) a block of rules `obj.Fi = <literal or document path>` with pairwise distinct destination fields succeeds in every ordering, every ordering ends in the same objects, variables, counters and call log, each destination holds what its rule alone writes and nothing else changed (any number of rules, any user functions, any fuel; getter / modifier / variable sources are covered per rule). Literal and getter results are values in the model; that the code does not alias them is what the correspondence (all permutations of independent rules, literal lengths 1..33) checks, with a direct oracle on the real decoder comparing all orderings.",
+        "every permutation of 2-4 independent rules (fresh objects; context variables also on a recycled context), 260 cases quick / 2600 thorough")
 _interp("C03", "Theorems C03_*: a plain condition runs exactly the branch node_cmp selects; the literal-left route through op.Swap decides lit op v (mirror law proved for all six operators, integers and strings, struct / static / vector operands); helper and cond-OK forms branch on the helper's result; the verdict of any comparison is a function of variables, objects and counters only (node_cmp_core), so stale scratch values cannot flip it.",
         "220 programs quick / 2500 thorough")
 _interp("C04", "Theorems C04_*: for valid headers the counter-loop driver equals one body execution per element of Go's counter sequence (int64 wrap included), nothing when the condition is false at entry, and (C04_variable_reads_go_value_everywhere, from the fuel induction follow_keeps through every driver) in every counter loop of every program, whatever its body, the loop variable reads that element in every iteration.",
@@ -61,7 +61,7 @@ _interp("C16", "The model has no panic outcome: every list access of the decode 
 _interp("C17", "Theorems C17_*: the vector handed to a function is exactly the list of the written arguments' values, in order, each evaluated on its own (earlier arguments cannot influence later ones); a coalesce source is the first listed key that is present and not null; a chain of user modifiers is the left-to-right fold, each stage receiving the previous result (C17_modifier_chain_runs_left_to_right).",
         "220 programs quick / 2500 thorough")
 _interp("C18", "Theorems C18_*: default / ifThen / ifThenElse by emptiness and truth classes; atoi / atou / atob are strconv's parsers (Gallina re-implementations proved to round-trip with FormatInt / FormatUint on all of int64 / uint64), itoa / utoa format, crc32 is IEEE CRC-32 of the concatenation; arity errors; the builtin names are exactly those init() registers (Builtins.v regenerated from init.go, BuiltinFacts).",
-        "260 programs quick / 3000 thorough; atof is compared on short decimals only", ["strconv and hash/crc32 are re-implemented in Gallina (theories/Strconv.v, Crc.v) and compared with Go's on ~20k strings by harness/sctest.sh"])
+        "260 programs quick / 3000 thorough; the model's atof covers plain decimals only: atoi / atou / atof / atob are in addition compared with strconv directly (same value, same kind of error exactly when strconv fails) on curated boundary texts and 400 (quick) / 20000 (thorough) random texts, as vector node, static string and literal arguments", ["strconv and hash/crc32 are re-implemented in Gallina (theories/Strconv.v, Crc.v) and compared with Go's on ~20k strings by harness/sctest.sh"])
 _interp("C19", "Theorems C19_*: Set is update-or-claim over a list read by first match: the latest binding wins, other names are untouched, Reset unbinds, Get of an unbound name is nil, lookups are pure.",
         "220 job sequences quick / 2500 thorough")
 
@@ -103,8 +103,8 @@ PROPS["C13"] = {
     "case_modules": [],
     "race": True,
     "technique": "Coq: lock-discipline checker run on the lock structure regenerated from db.go by the translator (proved true by computation) + invariant proof for a readers-writer-lock interleaving model (readers see only completed writer operations; quiescent value = serial application) + the sequential refinement of C12; concurrent stress on the real package with version/monotonicity/completeness oracles and a deadlock watchdog; race detector in the thorough tier",
-    "level_text": "C13_lock_discipline_of_db_go is re-proved on every run over the audit extracted from the working tree: every access to the four shared fields lies in a lock region of the right kind, no locking method is called with the lock held, every path releases it. Given that, C13_reader_sees_complete_states and C13_quiescent_value_is_serial show in an interleaving model with a non-atomic writer that readers never see a half-installed registration and that writers are linearized at their critical sections; C12 gives the sequential meaning. W/R/P goroutines hammer the real registry; every decode must run a complete tree registered for its identifier, versions must respect real time, nothing may deadlock.",
-    "level_note": "PARTIAL by nature: sync.RWMutex and the Go memory model are assumed to behave as the interleaving model says; a data race is invisible to the model and is looked for with the race detector (thorough tier) only. The audit is syntactic and trusted. Unbounded: the theorems. Bounded: 3 rounds x up to 20 goroutines x 400 ops quick; 12 x 4000 thorough.",
+    "level_text": "C13_lock_discipline_of_db_go is re-proved on every run over the audit extracted from the working tree: every access to the four shared fields lies in a lock region of the right kind, no locking method is called with the lock held, every path releases it; C13_one_critical_section_per_method, over the same audit: on every path a method takes the lock at most once, so the lookup and the update of a registration form one atomic step. Given that, C13_reader_sees_complete_states and C13_quiescent_value_is_serial show in an interleaving model with a non-atomic writer that readers never see a half-installed registration and that writers are linearized at their critical sections; C12 gives the sequential meaning. W/R/P goroutines hammer the real registry; every decode must run a complete tree registered for its identifier, versions must respect real time, nothing may deadlock; pairs of racing registrations of one identifier must leave its id and its key leading to the same tree.",
+    "level_note": "PARTIAL by nature: sync.RWMutex and the Go memory model are assumed to behave as the interleaving model says; a data race is invisible to the model and is looked for with the race detector (thorough tier) only. The audit is syntactic and trusted. Unbounded: the theorems. Bounded: 3 rounds x up to 20 goroutines x 400 ops quick; 12 x 4000 thorough; 1500 / 30000 racing pairs.",
     "assumptions": ["every access to the registry goes through db.go (audited: registry_fields_used_outside_db_go = [])"],
 }
 
